@@ -159,6 +159,10 @@ MUTANTS = [
      "                        self.cores[i] = v.reshape(v.shape[0], self.row_dims[i], self.col_dims[i], self.ranks[i + 1])", 1, "3000,0"),
     ("c06_implicit_euler_guess", "C06", ODE, "        # append solution\n        solution.append(tt_tmp.copy())\n\n        # print progress\n        utl.progress('Running implicit Euler method'",
      "        # append solution\n        solution.append(tt_tmp)\n        initial_guess.cores[0] = tt_tmp.cores[0]\n\n        # print progress\n        utl.progress('Running implicit Euler method'", 1, "20000,0"),
+    ("c06_trajectory_append_no_copy", "C06", ODE, "        solution.append(tmp.copy())\n\n    return solution", "        solution.append(tmp)\n\n    return solution", 0, "8000,0"),
+    ("c06_conj_default_overwrite_true", "C06", TT, "    def conj(self, overwrite: bool=False)", "    def conj(self, overwrite: bool=True)", 1, "4000,0"),
+    ("c05_svd_default_overwrite_true", "C05", TT, "            overwrite: bool=False) -> Tuple['TT', 'TT', 'TT']:", "            overwrite: bool=True) -> Tuple['TT', 'TT', 'TT']:", 1, "4000,0"),
+    ("c06_tedmd_revert_copy", "C06", "scikit_tt/data_driven/tedmd.py", "        eigentensors_tmp = psi.copy()", "        eigentensors_tmp = psi", 0, "6000,0"),
     # ---- C20
     ("c20_flip_comparison", "C20", QC, "(samples[:,i]>cond_prob[:,0]/np.sum(cond_prob,axis=1))", "(samples[:,i]<cond_prob[:,0]/np.sum(cond_prob,axis=1))", 1, "600,0"),
     ("c20_no_normalisation", "C20", QC, "cond_prob[:,0]/np.sum(cond_prob,axis=1))", "cond_prob[:,0])", 1, "600,0"),
